@@ -47,7 +47,8 @@ def run(ctx):
                           "a replay frame can be pushed without passing the %s check" % lim.rsplit(".", 1)[-1], config, ctx.where(ni, pb))
         # per-anchor counter is incremented before it is compared (saturating), total with checked_add
         inc_total = [b for b, t in ni.calls() if fx.callee(t) == "core::num::checked_add" and render(ni.sym_operand(t["args"][0])) == "self.total_replayed_events"]
-        ctx.check(len(inc_total) == 1, "ARITH", "C08:ARITH:total:checked_add", "total replayed events is advanced with checked_add", "total_replayed_events is no longer advanced with exactly one checked_add", config, ctx.where(ni))
+        ctx.check(len(inc_total) == 1 and ni.sym_operand(ni.blocks[inc_total[0]]["term"]["args"][1])[:2] == ("const", 1), "ARITH", "C08:ARITH:total:checked_add", "total replayed events is advanced by exactly 1 with checked_add",
+                  "total_replayed_events is no longer advanced by the constant 1 with exactly one checked_add", config, ctx.where(ni))
         inc_per = [b for b, t in ni.calls() if fx.callee(t) in ("core::num::saturating_add", "core::num::checked_add") and _deep(ni, t["args"][0]).startswith(("self.per_anchor_expansions[", "index(self.per_anchor_expansions, "))]
         ctx.check(len(inc_per) == 1, "ARITH", "C08:ARITH:per-anchor:non-wrapping", "per-anchor counter is advanced with a non-wrapping add", "per_anchor_expansions is no longer advanced with one saturating/checked add", config, ctx.where(ni))
         for f, c, rej in seen["self.alias_limits.max_alias_expansions_per_anchor"]:
@@ -60,6 +61,17 @@ def run(ctx):
             okret = [b for b, i, adt, var, fl, ops, s_ in aggregates(ni) if adt.endswith("result::Result") and var == "Ok"]
             ctx.check(must_pass(ni, inc_total, [c["block"]], to_blocks=okret), "DOM", "C08:DOM:total:before-delivery", "no replayed event is delivered without the total check",
                       "a replayed event can be delivered without passing the total-replayed check", config, ctx.where(f, c["block"]))
+        # ... and every replayed delivery is counted at all: the replay-only site (the budget re-observation of a replayed
+        # event, which C07:REPLAY shows every replayed delivery passes) is unreachable on paths that avoid the increment / the comparison
+        replay_sites = [b for b, t in ni.calls() if fx.callee(t) == LE + "::observe_budget_for_replay"]
+        ctx.floor("DOM.replay-sites", len(replay_sites), 1, config)
+        cmp_blocks = [c["block"] for f, c, rej in seen["self.alias_limits.max_total_replayed_events"] if f is ni]
+        for what, gate in (("counted", inc_total), ("compared with the limit", cmp_blocks)):
+            free = ni.reachable([0], avoid=gate) if gate else set(ni.live_blocks)
+            leak = [b for b in replay_sites if b in free]
+            ctx.check(bool(gate) and not leak, "DOM", "C08:DOM:total:every-replayed-event-%s" % what.split()[0], "every replayed event is %s before it is handed on" % what,
+                      "a replayed event can reach the budget re-observation / delivery on a path where it is not %s (e.g. only counted under a condition): the total-replayed-events limit is not enforced for those events" % what,
+                      config, ctx.where(ni, (leak or [None])[0]))
         # replayed events consume the budget (shared rule with C07)
         C07.rule_replay(ctx, fx, config)
         # WHO-WRITES: the alias counters
